@@ -1618,6 +1618,6 @@ PARTS = [
     Part('rules', 'enum', judge_rules, items=items_rules, exhaustive=True),
     Part('square', 'enum', judge_single, items=items_square, exhaustive=True),
     Part('equiv', 'enum', judge_equiv, items=items_equiv, exhaustive=True),
-    Part('multi', 'hyp', judge_multi, strategy=strat_multi, budget={'quick': 5000, 'thorough': 100000}),
-    Part('answers', 'hyp', judge_answers, strategy=strat_answers, budget={'quick': 2500, 'thorough': 60000}),
+    Part('multi', 'hyp', judge_multi, strategy=strat_multi, budget={'quick': 5000, 'thorough': 60000}),
+    Part('answers', 'hyp', judge_answers, strategy=strat_answers, budget={'quick': 2500, 'thorough': 30000}),
 ]
